@@ -18,7 +18,8 @@ pub struct C17;
 struct Case {
     /// "enumerate" | "sequence" | "unusable"
     kind: String,
-    /// "first" | "after_edit" | "revert"
+    /// "first" | "after_edit" | "revert" | "forced" (generated and current; the
+    /// faulty run is a forced regeneration)
     prestate: String,
     model: Model,
     /// the edited model (after_edit / revert)
@@ -87,8 +88,25 @@ struct Scenario<'a> {
     reference: Files,
     golden: Files,
     golden_events: Vec<Event>,
-    /// the model whose sources are on disk when the recovery run starts
+    /// configuration of the recovery run (never forced)
     cfg: Cfg,
+    /// configuration / flag of the golden and the faulty runs
+    run_cfg: Cfg,
+    force_flag: bool,
+}
+
+fn forced_variant(c: &Case) -> (Cfg, bool) {
+    if c.prestate != "forced" {
+        return (c.cfg.clone(), false);
+    }
+    match c.setup.entry {
+        Entry::Cli => (c.cfg.clone(), true),
+        Entry::Build => {
+            let mut x = c.cfg.clone();
+            x.force = Some(true);
+            (x, false)
+        }
+    }
 }
 
 fn fault_label(k: &FaultKind) -> String {
@@ -111,12 +129,23 @@ fn judge(env: &mut Env, co: &mut CaseOut, sc: &Scenario, faulty_runs: &[Vec<Faul
     sc.w.restore(&sc.s0);
     let mut any_fired = false;
     let mut last_masked_only = true;
+    // files a faulted run itself tried to remove or rename away: if they are still
+    // there it is because the injected fault hit the clean-up, not because none was made
+    let mut cleanup_attempted: std::collections::BTreeSet<String> = std::collections::BTreeSet::new();
+    let note_cleanup = |trace: &[Event], set: &mut std::collections::BTreeSet<String>| {
+        for e in trace {
+            if matches!(e.op, Op::Unlink | Op::Rename) {
+                set.insert(e.path.rsplit('/').next().unwrap_or("").to_string());
+            }
+        }
+    };
     for (ri, faults) in faulty_runs.iter().enumerate() {
         let mut p = c.p_gold.clone();
         p.hash_keys[0] = p.hash_keys[0].wrapping_add(ri as u64);
         p.faults = faults.clone();
-        let r = scen::run_tool(env, sc.w, &c.setup, &sc.cfg, p, false, false);
+        let r = scen::run_tool(env, sc.w, &c.setup, &sc.run_cfg, p, sc.force_flag, false);
         co.count("faulty_runs", 1);
+        note_cleanup(&r.res.trace, &mut cleanup_attempted);
         let fired = !r.res.fired.is_empty();
         any_fired |= fired;
         for (k, _) in &r.res.fired {
@@ -157,6 +186,10 @@ fn judge(env: &mut Env, co: &mut CaseOut, sc: &Scenario, faulty_runs: &[Vec<Faul
         return;
     }
     // the obstacle is gone; in the `revert` scenario the user also takes the edit back
+    if sc.run_cfg != sc.cfg {
+        sc.w.write_config(&c.setup, &sc.cfg);
+    }
+    let all_error_faults = faulty_runs.iter().flatten().all(|f| !f.kind.is_crash());
     let mut want = &sc.reference;
     let reverted: Files;
     if c.prestate == "revert" {
@@ -178,6 +211,7 @@ fn judge(env: &mut Env, co: &mut CaseOut, sc: &Scenario, faulty_runs: &[Vec<Faul
     co.count("recovery_runs", 1);
     let mut rec = rec;
     if second_recovery {
+        note_cleanup(&rec.res.trace, &mut cleanup_attempted);
         let mut p2 = c.p_recover.clone();
         p2.hash_keys[1] ^= 0xabcdef;
         rec = scen::run_tool(env, sc.w, &c.setup, &sc.cfg, p2, false, false);
@@ -209,6 +243,25 @@ fn judge(env: &mut Env, co: &mut CaseOut, sc: &Scenario, faulty_runs: &[Vec<Faul
             hint,
         );
         return;
+    }
+    // nothing new is left lying around by a run that was alive to clean up after itself
+    // (a killed process cannot; its leftovers are not judged)
+    if all_error_faults {
+        let before: Files = canon::files_of(&crate::world::Snapshot::from_iter(
+            sc.s0.iter().filter_map(|(k, v)| k.strip_prefix(&format!("{}/", c.setup.out)).map(|r| (r.to_string(), v.clone()))),
+        ));
+        let junk: Vec<&String> = files
+            .keys()
+            .filter(|n| !want.contains_key(*n) && !before.contains_key(*n) && !sc.golden.contains_key(*n) && !cleanup_attempted.contains(*n))
+            .collect();
+        if !junk.is_empty() {
+            co.violate_hint(
+                format!("C17/leftover/{}/{}", crate::checks::c16::name_class(junk[0]), sig_tail),
+                "3: ... ends in the same state as a fresh generation (no files that neither the reference nor the earlier state contain)",
+                format!("{}: after recovery the output directory also holds {:?}", what, junk),
+                hint.clone(),
+            );
+        }
     }
     // the cache record itself: equal to the one a fresh generation writes
     // (only where the record is a function of sources and configuration at all: if the
@@ -255,10 +308,11 @@ impl Check for C17 {
             2 => "sequence",
             _ => "unusable",
         };
-        let prestate = match (i / 3) % 3 {
+        let prestate = match (i / 3) % 4 {
             0 => "first",
             1 => "after_edit",
-            _ => "revert",
+            2 => "revert",
+            _ => "forced",
         };
         let mut gp = GenParams::swarm(&mut r.split("params"));
         gp.n_files = gp.n_files.min(3);
@@ -269,7 +323,7 @@ impl Check for C17 {
         cfg.visualize = i % 5 == 0;
         cfg.flag_visualize = cfg.flag_visualize && cfg.visualize;
         let mut er = r.split("edit");
-        let (model_b, edit_desc) = if prestate != "first" {
+        let (model_b, edit_desc) = if prestate == "after_edit" || prestate == "revert" {
             // an edit the cache demonstrably notices (checked by the golden run)
             let class = *er.pick(&["add_command", "rename_command", "add_param", "return_type", "add_field", "field_type"]);
             match crate::edits::gen_edit(&mut er, class, &model).or_else(|| crate::edits::gen_edit(&mut er, "add_command", &model)) {
@@ -355,12 +409,14 @@ impl Check for C17 {
                 w.destroy();
                 return co;
             }
-            match &c.model_b {
-                Some(m) => w.write_sources(m),
-                None => {
-                    co.discard = Some("no eligible edit".into());
-                    w.destroy();
-                    return co;
+            if c.prestate != "forced" {
+                match &c.model_b {
+                    Some(m) => w.write_sources(m),
+                    None => {
+                        co.discard = Some("no eligible edit".into());
+                        w.destroy();
+                        return co;
+                    }
                 }
             }
         }
@@ -467,7 +523,6 @@ impl Check for C17 {
             return co;
         }
         // ---- reference, golden run ---------------------------------------------------
-        let s0 = w.snapshot();
         let reference = match scen::reference2(env, &w, &c.setup, &c.cfg) {
             Ok(f) => f,
             Err(e) => {
@@ -476,7 +531,13 @@ impl Check for C17 {
                 return co;
             }
         };
-        let gold = scen::run_tool(env, &w, &c.setup, &c.cfg, c.p_gold.clone(), false, false);
+        // in the `forced` pre-state the judged runs are forced regenerations
+        let (run_cfg, force_flag) = forced_variant(&c);
+        if run_cfg != c.cfg {
+            w.write_config(&c.setup, &run_cfg);
+        }
+        let s0 = w.snapshot();
+        let gold = scen::run_tool(env, &w, &c.setup, &run_cfg, c.p_gold.clone(), force_flag, false);
         let golden = scen::out_files(&w, &c.setup);
         if !gold.res.status.is_ok() || !gold.res.regenerated() {
             co.discard = Some(format!("golden run did not regenerate ({}): the edit is not noticed by the cache - C08's business", gold.res.status.short()));
@@ -489,7 +550,7 @@ impl Check for C17 {
             return co;
         }
         let events: Vec<Event> = gold.res.trace.iter().filter(|e| e.mseq.is_some()).cloned().collect();
-        let sc = Scenario { w: &w, c: &c, s0, reference, golden, golden_events: events, cfg: c.cfg.clone() };
+        let sc = Scenario { w: &w, c: &c, s0, reference, golden, golden_events: events, cfg: c.cfg.clone(), run_cfg, force_flag };
         co.count("golden_fault_points", sc.golden_events.len() as u64);
         let scen_label = format!("{}/{}/{}/{}", c.prestate, c.setup.label(), c.cfg.mode, if c.cfg.visualize { "viz" } else { "noviz" });
         if c.kind == "enumerate" {
